@@ -47,6 +47,10 @@ def source(mm, style, modname, nsuri):
                     else:
                         body.append(f"    {fd['name']} = EReference(upper={upper}, ordered={fd.get('ordered', True)}, "
                                     f"unique={fd.get('unique', True)}, containment={fd.get('containment', False)})")
+                for opd in c.get('operations', []):
+                    ps = ', '.join(['self'] + [p['name'] if p['required'] else p['name'] + '=None' for p in opd['params']])
+                    body.append(f"    def {opd['name']}({ps}):")
+                    body.append('        return None')
                 if style == 'meta':
                     body.append('    def __init__(self, **kwargs):')
                     body.append('        super().__init__()')
@@ -93,3 +97,38 @@ def render(mm, style):
 
 def forget(mod):
     sys.modules.pop(mod.__name__, None)
+
+
+def static_over_dynamic(mm, dyn_classes):
+    """for every class that has supertypes (and no own features): a static class
+    `class X(<dynamic EClass>..., metaclass=MetaEClass)`; the others stay dynamic"""
+    common.use_repo()
+    _counter[0] += 1
+    modname = f'verif_mixed_{_counter[0]}'
+    mod = types.ModuleType(modname)
+    sys.modules[modname] = mod
+    ns = mod.__dict__
+    exec('from pyecore.ecore import *', ns)
+    out = dict(dyn_classes)
+    done = set(c['name'] for c in mm['classes'] if not c.get('supers'))
+    for c in mm['classes']:
+        if not c.get('supers'):
+            ns[c['name']] = dyn_classes[c['name']]
+    pending = [c for c in mm['classes'] if c.get('supers')]
+    while pending:
+        for c in list(pending):
+            if all(s in done for s in c['supers']):
+                if c['features']:
+                    ns[c['name']] = dyn_classes[c['name']]
+                else:
+                    body = []
+                    for opd in c.get('operations', []):
+                        ps = ', '.join(['self'] + [p['name'] if p['required'] else p['name'] + '=None' for p in opd['params']])
+                        body += [f"    def {opd['name']}({ps}):", '        return None']
+                    body += ['    def __init__(self, **kwargs):', '        super().__init__()']
+                    src = f"class {c['name']}({', '.join(c['supers'])}, metaclass=MetaEClass):\n" + '\n'.join(body) + '\n'
+                    exec(compile(src, modname, 'exec'), ns)
+                    out[c['name']] = ns[c['name']]
+                done.add(c['name'])
+                pending.remove(c)
+    return out
